@@ -155,6 +155,28 @@ func (env *SpecEnv) eval(e Expr) *Val {
 
 func (env *SpecEnv) quant(x *Quant) *Val {
 	vc := env.VC()
+	// a quantifier over a small literal range nested inside another quantifier is expanded into its
+	// instances: the solvers then see one bound variable per formula (no two-variable index terms
+	// such as 16*k+j, on which e-matching is unstable). Same meaning, finitely many conjuncts.
+	if lo, ok := x.Lo.(*IntLit); ok && len(env.qvars) > 0 {
+		if hi, ok := x.Hi.(*IntLit); ok && lo.V.IsInt64() && hi.V.IsInt64() && hi.V.Int64()-lo.V.Int64() <= 64 {
+			saved, had := env.bound[x.Var]
+			var parts []Term
+			for i := lo.V.Int64(); i < hi.V.Int64(); i++ {
+				env.bound[x.Var] = &Val{T: Term(fmt.Sprint(i)), Typ: types.Typ[types.Int]}
+				parts = append(parts, vc.term(env.eval(x.Body)))
+			}
+			if had {
+				env.bound[x.Var] = saved
+			} else {
+				delete(env.bound, x.Var)
+			}
+			if x.Forall {
+				return boolVal(and(parts...))
+			}
+			return boolVal(or(parts...))
+		}
+	}
 	vname := fmt.Sprintf("%s!q%d", x.Var, vc.S.nfresh)
 	vc.S.nfresh++
 	saved, had := env.bound[x.Var]
